@@ -203,3 +203,56 @@ def storedKey (s : Schema) : Nat → (base : Active) → Option Node → List St
               | [] => .ok [.s td.iri]
 
 end Gsp.Ctx
+
+namespace Gsp.Ctx
+
+def sumN : List Nat → Nat
+  | [] => 0
+  | x :: xs => x + sumN xs
+
+/-- **What expansion drops.** The number of properties of the document (counted with everything below them as one)
+    that cannot be expanded: the term is not defined in the context in force at that node - the node's base context
+    plus the type-scoped contexts of its own types - or a scoped context on the way cannot be loaded. These are the
+    properties the JSON-LD processor leaves out of the dataset; safe mode is the promise that their number is zero. -/
+def undefinedProps (s : Schema) : Nat → (base : Active) → Option Node → Nat
+  | 0, _, _ => 0
+  | _+1, _, none => 0
+  | fuel+1, base, some node =>
+    match applyTypes s base base (sortS node.types) with
+    | none => 1
+    | some a1 =>
+      sumN (node.props.map fun pm =>
+        match lookupTerm a1 pm.1 with
+        | none => 1
+        | some td =>
+          match applyCtx s base td.sub with
+          | none => 1
+          | some base' => sumN (pm.2.map (undefinedProps s fuel base')))
+
+/-- the dotted path addresses something the document contains (contexts play no part): every term names a property of
+    the node reached so far, every position a member of the array -/
+def present : Nat → Option Node → List String → Bool
+  | 0, _, _ => false
+  | _+1, _, [] => true
+  | fuel+1, cur, p :: rest =>
+    match cur with
+    | none => false
+    | some node =>
+      match node.props.lookup p with
+      | none => false
+      | some members =>
+        match rest with
+        | idx :: rest' =>
+          if isNumeric idx then
+            match idx.toNat? with
+            | none => false
+            | some n => match members[n]? with
+              | none => false
+              | some m => present fuel m rest'
+          else
+            match members with
+            | [m] => present fuel m rest
+            | _ => false
+        | [] => true
+
+end Gsp.Ctx
